@@ -75,6 +75,7 @@ def run(tier):
     check_state_for_iface(rep, prog, 'R07.k')
     rep.rule('R07.a', 'an observation is linked only when the real destination equals the own address; otherwise nothing is stored or allocated', floor=3)
     rep.rule('R07.b', 'de-duplication key is exactly (Ethernet source, real source)', floor=1)
+    rep.rule('R07.l', 'the QueryResp is built and released within its request (no buffer retained, nothing freed or sent through a pointer of unknown provenance)', floor=1)
     rep.rule('R07.c', 'field mapping frame -> node -> wire descriptor is type, real source, Ethernet source, Ethernet destination (identity, 20 bytes)', floor=20)
     rep.rule('R07.d', 'QueryResp: sequence number of the Query; destination = real source, or broadcast iff real source != Ethernet source', floor=14)
     rep.rule('R07.e', "more observations than fit: 'more' bit (bit 15 of the count field) set and the unsent remainder is kept", floor=2)
@@ -103,6 +104,16 @@ def decide(rep, prog):
         I, outs = orig_run(**kw)
         return I, outs
     res, obs, stats = run_regions(fs, regions=['topo.rest', 'topo.query'], jobs=2)
+    # what a QueryResp reports is what the list holds now: the response is built in a buffer of this very request and released
+    # with it - a response kept across requests (a retransmission cache) reports observations of another moment, and nothing
+    # handled here may free or send through a pointer of unknown provenance
+    from .dispatch import fail_obligations
+    from .frame_common import live_heap
+    fail_obligations(rep, obs, 'R07.l', kinds=('bad-free', 'use-after-free', 'double-free', 'dangling', 'wild-deref'))
+    for st_q, _r in res['topo.query']:
+        lv = [o_ for o_ in live_heap(fs, st_q) if 'probe' not in o_.lower() and 'cached' not in o_]
+        rep.check(not lv, 'R07.l', 'query|retained-buffer', 'the Query cell returns with %s still allocated: a response buffer that outlives its request' % lv,
+                  function='parseQuery', file=fnf)
     prec = fs.prec
     noff = {f[0]: f[1] for f in prec.fields}
     node_from_frame = {}       # node offset -> frame offset
